@@ -7,6 +7,194 @@ HERE = os.path.dirname(os.path.abspath(__file__))
 ROOT = os.path.dirname(HERE)
 
 CLAIMED = {
+    "C01": {
+        "text": "Machine-checked proofs (Coq 8.16.1, closed under the global context) about the executable model of the "
+                "extraction pipeline (tracker, profiler, shexing, ShExC serialiser), for ALL graphs and configurations: "
+                "the class profile holds exactly the declarative counts occ/class_count of Spec/Counts.v (Props/P1.v), and "
+                "every figure of the output (header, constraint lines, comments, direct and inverse, whatever the "
+                "threshold and switches) is the count of one profile entry of the same direction, property, kind and "
+                "original cardinality, or -- for the merged NONLITERAL alternative only -- the sum of two entries "
+                "(Props/C01.v, Props/ShexStage.v); binary64 ratios of n <= N never exceed 1.  The model is tied to "
+                "/repo on every run: its ShExC text equals the real Shaper's byte for byte on every generated case and "
+                "the property's projection (all figures) is compared; an independent oracle recomputes every printed "
+                "figure from the abstract triples.",
+        "design": "DESIGN.md sections 0a, 7 (C01), 11",
+        "note": "Trusted: Coq kernel; gen_consts.py; extraction (ExtrOcamlBasic, ExtrOcamlString) cross-checked against "
+                "vm_compute; Lib/Bin64 software binary64 validated against CPython; the harness (generator, canonicaliser, "
+                "ratio-printing shim).  The statement is false for the NONLITERAL merge and for classes sharing a local "
+                "name: refuted lemmas + findings C01-F1..F3.  Input through the N-Triples reader (C06's subject).",
+        "technique": "Coq proof by induction over folds / dictionaries (profile = declarative counts; figures = profile "
+                     "entries) + byte-exact differential correspondence of the extracted model + recount oracle",
+    },
+    "C02": {
+        "text": "Machine-checked proofs for ALL profiles, thresholds and switch settings that the shexing stage keeps a "
+                "(direction, property, value class) key iff some candidate of that key reaches the threshold -- with "
+                "CPython's binary64 comparison iff the LARGEST count of the key does (boundary kept) --, never keeps a key "
+                "twice, and yields one shape per class key of the profile with the class count (Props/C02.v); with "
+                "Props/P1.v the counts are those of the data.  Tied to /repo by the byte-exact correspondence of the "
+                "extracted model; an independent exact-rational oracle recomputes every key set from the triples.",
+        "design": "DESIGN.md sections 0a, 7 (C02), 11",
+        "note": "Trusted base as C01.  For value class 'nonliteral' the largest candidate count is the union count only "
+                "when the instances with an IRI value and those with a BNode value are nested: refuted otherwise "
+                "(C02_split_nonliteral_refuted, finding C02-F1).  With remove_empty_shapes only the soundness direction "
+                "is proved (C02_keys_remove_partial).",
+        "technique": "Coq proof (selection invariants of the two merge loops, monotone binary64 ratio) + differential "
+                     "correspondence + exact-rational recount oracle on every k/n threshold boundary",
+    },
+    "C04": {
+        "text": "Machine-checked proof that the shexing stage of the model -- in which every unguarded dereference, "
+                "index, key lookup and raise of the Python code is an explicit error outcome -- returns a result for "
+                "ALL profiles, counts, thresholds and switch settings with disjunctions disabled (default) whenever the "
+                "profile's type keys are renderable, plus the exact characterisation of the only failures of "
+                "tune_token and of the empty-shape cleaning loop (Props/C04.v).  Tied to /repo by comparing the "
+                "outcome (result / exception class) of the real shex_graph with the model's on C01's graphs and "
+                "adversarial mixes; SHACL output and profile_graph are exercised on the implementation only.",
+        "design": "DESIGN.md sections 0a, 7 (C04), 11",
+        "note": "Trusted base as C01.  Not modelled (observed only): SHACL serialisation crashes, profile_graph, input "
+                "readers other than N-Triples.  Five crashes found this way were repaired in /repo (fix: commits, "
+                "known_findings.json status fixed).",
+        "technique": "Coq totality proof over an error-explicit model + differential outcome correspondence + crash "
+                     "search over adversarial graphs x configurations x {ShExC, SHACL, profile_graph}",
+    },
+    "C05": {
+        "text": "Machine-checked proof (Coq 8.16.1, closed under the global context) that every ShExC text the validated "
+                "serialiser model prints on C05_dom is accepted by a lexer + automaton recogniser written from the ShEx "
+                "2.1 grammar (C05_document_recognised) and, given a reference-closed shape list with distinct labels, has "
+                "a functional prefix map, only declared prefixes, distinct labels and resolving references "
+                "(C05_closed_text, C05_wellformed_closed_partial); reference closure and label distinctness of the shape "
+                "list after empty-shape removal are proved in Props/C05refs.v for the default shapes namespace and "
+                "injective labels.  The model's text equals the real Shaper's byte for byte, and the EXTRACTED "
+                "recogniser and closure checks run on every real output (incl. reference chains through shape maps); "
+                "SHACL output is parsed with rdflib and checked for sh:node / path closure.",
+        "design": "DESIGN.md sections 0a, 7 (C05), 11",
+        "note": "Partial: SHACL is oracle-only (not modelled); C05_dom of the shape list is monitored at run time by the "
+                "model binary rather than derived from graph-level premises; the random-prefix fallback is outside the "
+                "model.  Findings C05-F1 (custom shapes_namespace: dangling references, pinned by golden files), C05-F2 "
+                "(shared local names: duplicate labels), C05-F3 (parsed prefix collision).  Trusted: the Spec recogniser "
+                "(a subset of the grammar, keywords case-insensitive).",
+        "technique": "Coq: state-machine lexer and parser automaton compositional over ++, per-line token lemmas, closure "
+                     "invariant of the cleaning loop; byte-exact text correspondence; extracted-Spec oracle on real output",
+    },
+    "C09": {
+        "text": "Machine-checked proofs for ALL graphs: the declarative counts occ/class_count are invariant under "
+                "permutation of the statements; without a cap the tracker's instance dictionary of a permuted document "
+                "has the same instances with permuted class lists; hence every number of the class profile and (with "
+                "remove_empty_shapes off) the shape set, instance counts and constraint key sets of the whole run are "
+                "the same for g and any permutation of g (Props/C09.v, closed under the global context).  Equality of the "
+                "CHOSEN constraints under ties is refuted by two witnesses (findings C09-F1, C09-F2).  Tied to /repo by "
+                "the byte-exact correspondence and by a metamorphic oracle on pairs of real runs (random and "
+                "exhaustive permutations, blank-node relabelling, IRI stems included).",
+        "design": "DESIGN.md sections 0a, 7 (C09), 11",
+        "note": "Blank-node renaming is checked by the oracle only (no theorem: labels enter shape names and the "
+                "IRI/BNode string comparisons); remove_empty_shapes on and the choice among tied candidates are outside "
+                "the proved statement.  Trusted base as C01.",
+        "technique": "Coq proof (Permutation induction, set characterisation of the tracker, congruence of occ in the "
+                     "instance dictionary) composed with P1 and the key theorem + metamorphic differential runs",
+    },
+    "C10": {
+        "text": "Machine-checked proof (Coq 8.16.1, closed) that, for every graph and target specification of C10_dom "
+                "written as class names (full / <bracketed> / prefixed, list or file) or a shape map (fixed or JSON "
+                "syntax; node, {FOCUS p o}, {s p FOCUS}, SPARQL) or both, the model of sheXer's parsers and instance "
+                "trackers yields a dictionary holding key S for node n iff the Spec denotes n for S, with exact "
+                "multiplicities, nothing else, and rdf:type ordinary under a custom instantiation property; 17 parser "
+                "constants regenerated from /repo; differential run of model vs real tracker on generated cases plus an "
+                "independent Python oracle at dictionary and text level.",
+        "design": "DESIGN.md sections 0a, 7 (C10), 11",
+        "note": "Trusted: Coq kernel, gen_consts.py, extraction (vm_compute cross-checked), rdflib (parse, FOCUS/SPARQL "
+                "evaluation and blank-node ids are oracle arguments, monitored), NT reader = abstract triples.  Off "
+                "C10_dom: findings C10-F1..F6 (_refuted lemmas, pinned reproducers).  Layout variants: check only.",
+        "technique": "Coq proofs by induction over triples/items plus string lemmas (parse o render); extracted-model "
+                     "correspondence; Spec-level Python oracle with figure recomputation",
+    },
+    "C11": {
+        "text": "Machine-checked proof (closed under the global context) that for every well-formed statement -- kinds "
+                "IRI, BNode, NONLITERAL, shape reference, datatype; instantiation constraints of any cardinality and "
+                "direction; all {k>=1}, +, *, ? -- the model of the SHACL serialiser emits exactly the encoding of what "
+                "the model of the ShExC serialiser prints (C11_views_agree, C11_read_back, C11_shapes_agree: one node "
+                "shape per shape, same IRI, sh:targetClass = class, one property shape per constraint, in order; "
+                "C11_cardinality_table), with the node-kind table, SHACL vocabulary, cardinality tables and the "
+                "serialiser's helper-call sequences regenerated from shacl_serializer.py on every run.  Tied to /repo by "
+                "per-line correspondence of both views against one real Shaper's two outputs and by a property-text "
+                "oracle (rdflib + ShExC canonicaliser), plus a complete grid of synthetic statements.",
+        "design": "DESIGN.md sections 0a, 7 (C11), 11",
+        "note": "Conditions: http(s) predicates and class values, a sane namespaces dict, no OR statements, "
+                "detect_minimal_iri off.  Four defects found this way were repaired in /repo (C11-X-3370abe-*, "
+                "C11-X-48b7fcb-*); their reproducers are regression cases.  Trusted base as C01 + rdflib's Turtle parser.",
+        "technique": "Gallina models of both serialisers over one statement; case analysis on kind x cardinality x "
+                     "direction; string lemmas for the IRI print/read round trip; differential check",
+    },
+    "C12": {
+        "text": "Machine-checked proofs for ALL profiles and configurations: with thr1 <= thr2 (CPython binary64 "
+                "comparison, class sizes < 2^53; also exact rationals) every shape and key present at thr2 is present at "
+                "thr1 (remove_empty_shapes off; on, on the domain where no reference points to an empty shape), every "
+                "figure is a profile entry independent of the threshold, and the threshold reaches the pipeline only "
+                "through the shexing stage (Props/C12.v).  Tied to /repo by the correspondence of the extracted model and "
+                "by a metamorphic oracle over fresh real Shapers at all ordered pairs of a k/n threshold grid.",
+        "design": "DESIGN.md sections 0a, 7 (C12), 11",
+        "note": "Trusted base as C01.  Refuted and recorded: the figure of the merged NONLITERAL alternative changes "
+                "with the threshold (C12-F1); a reference to a shape that ends up empty is deleted outright "
+                "(C12_remove_key_refuted; needs a shape-map label without triples).",
+        "technique": "Coq proof (transitivity of the binary64 order proved from a software model of IEEE division; "
+                     "key-set preservation through both merges) + differential correspondence + metamorphic oracle",
+    },
+    "C13": {
+        "text": "Machine-checked equations for ALL profiles/graphs: disable_comments, allow_opt_cardinality, "
+                "disable_exact_cardinality and all_instances_are_compliant_mode change the result of the shexing stage "
+                "exactly by mapping drop_comments / ?->* / {k>1}->+ / the per-statement relaxation over the statements "
+                "(errors coincide); disable_or_statements=False only replaces merged statements by disjunctions of the "
+                "same alternatives; instances_report_mode and the namespaces dictionary never change the shapes "
+                "(Props/C13.v).  Tied to /repo by the byte-exact correspondence and by a one-factor-at-a-time "
+                "metamorphic oracle on real runs, including file vs string output beyond the 5000-line buffer.",
+        "design": "DESIGN.md sections 0a, 7 (C13), 11",
+        "note": "Trusted base as C01.  decimals is rendered by the harness shim (not in the model): checked numerically; "
+                "decimals=0 truncates (finding C13-F1, pinned by a golden file).  The all-compliant equation holds on "
+                "O4_dom (refuted outside: a relaxed statement's comment keeps {3} while the line shows +).",
+        "technique": "Coq proof of commuting equations between two configurations + differential correspondence + "
+                     "pairwise metamorphic oracle",
+    },
+    "C14": {
+        "text": "Machine-checked proofs for ALL class entries, thresholds and switches: with inverse_paths the direct "
+                "statements, instance count and label of a shape are those of the run without it, and the inverse "
+                "statements are exactly what the direct strategy computes from the inverse features, flagged '^' "
+                "(Props/C14.v; premise: fle is a total preorder on the class's probabilities, proved for binary64); the "
+                "profiler's direct features do not depend on the flag (Props/P1.v).  Tied to /repo by the correspondence "
+                "and by a three-run metamorphic oracle (G with, G without, reverse(G) without).",
+        "design": "DESIGN.md sections 0a, 7 (C14), 11",
+        "note": "Trusted base as C01.  The reversed-graph comparison is strict on graphs without blank nodes (blank-node "
+                "subjects of incoming links get no shape references by design).",
+        "technique": "Coq proof (filtering commutes with the stable sort; direct/inverse code paths related by a swap) + "
+                     "differential correspondence + metamorphic oracle",
+    },
+    "C16": {
+        "text": "Machine-checked proofs (Coq 8.16.1, closed) that the tracker model with a cap lists per class exactly "
+                "the first min(k,|class|) instances in both target modes (early stop proved harmless), equals the "
+                "uncapped tracker on the restricted document, is the identity for large caps / the source default, and "
+                "that namespaces_to_ignore deletes exactly the direct-child-predicate triples from the feature pass "
+                "only (17 theorems, Props/C16.v); model tied to /repo byte for byte and by two-real-run metamorphic "
+                "oracles, exhaustive over the orderings of <= 5 typing triples.",
+        "design": "DESIGN.md sections 0a, 7 (C16), 11",
+        "note": "Hypotheses: NoDup g, ids_faithful g, tau_ok (off tau_ok: finding C16-F1).  The 'in document order' "
+                "claim is proved as Permutation plus the exact dictionary (C16_cap_dictionary; order witness).  The rest "
+                "of the pipeline is used only through run_shexc2's shape.  Trusted base as C01.",
+        "technique": "induction over the triple stream with a cap-as-filter characterisation, invariant plus pigeonhole "
+                     "for the early stop; differential and metamorphic runs",
+    },
+    "C17": {
+        "text": "Machine-checked proofs (closed under the global context): for ALL well-formed id lists the printed stem "
+                "is a common prefix, ends at ':', '/' or '#', has >= 3 characters, is not a bare scheme and is the "
+                "longest such stem, and no stem is printed only when none is admissible (C17_stem_longest, "
+                "C17_stem_none), independent of instance order; per class the fold computes that stem; for all graphs "
+                "and modes the shape example is an instance of the class and a constraint example is a value of the "
+                "property in that direction on some instance (C17_examples_from_data).  Separators, length bounds and "
+                "the scheme regex are regenerated from the source.  Tied to /repo by bounded-exhaustive function-level "
+                "correspondence (1.2M rows) and end-to-end runs with a brute-force oracle.",
+        "design": "DESIGN.md sections 0a, 7 (C17), 11",
+        "note": "'Neither option changes any constraint' is a run-time metamorphic check, not a theorem.  Finding C17-F3 "
+                "(examples lose their node kind when printed).  Two stem defects repaired in /repo (a83169a, cb32cb4). "
+                "Trusted base as C01.",
+        "technique": "Gallina model + Consts.v + bounded-exhaustive function-level and sampled end-to-end differential "
+                     "correspondence + brute-force Spec oracle",
+    },
     "C20": {
         "text": "Machine-checked proof (Coq 8.16.1, closed under the global context) that the model of Shaper.__init__'s "
                 "six checks plus the shape-map stage accepts exactly the configurations of the property's reference "
